@@ -250,6 +250,10 @@ func (P) Generate(g *hx.Gen) {
 	for k := 0; k < nC; k++ {
 		genStraddle(g)
 	}
+	nE := g.Pick(2, 8)
+	for k := 0; k < nE; k++ {
+		genLongLived(g, k)
+	}
 	nD := g.Pick(300, 3000)
 	for k := 0; k < nD; k++ {
 		genMalformed(g)
@@ -518,4 +522,46 @@ func genMalformed(g *hx.Gen) {
 	l.ops = append(l.ops, "sync", "disk", "read idx=0 skip=0", "read idx=0 skip=1",
 		fmt.Sprintf("search h=%d ign=0", l.someHeight()), fmt.Sprintf("search h=%d ign=1", l.someHeight()))
 	g.Case("malformed", l.ops, n >= 2)
+}
+
+// (E) a group that has lived long enough for its rotation index to pass 999 (indices only grow: with the default 10 MB head that
+// is ~10 GB of WAL over a node's life).  File names then carry four digits; a reopened group must still count, open and
+// search them.  ~1000 rotations of an empty head, then markers spread over the files around index 1000, a restart, and the
+// searches and reads of a recovering node.
+func genLongLived(g *hx.Gen, k int) {
+	l := &logGen{g: g, h: 1}
+	l.ops = []string{hx.CaseOp("longlived")}
+	pre := []int{996, 998, 999, 1000}[k%4] + g.Rng.Intn(2)
+	if g.Rng.Intn(2) == 0 { // something in the very first file too
+		l.marker()
+		l.ops = append(l.ops, "sync")
+	}
+	for i := 0; i < pre; i++ {
+		l.ops = append(l.ops, "rotate")
+	}
+	files := 3 + g.Rng.Intn(5)
+	for f := 0; f < files; f++ {
+		for n := g.Rng.Intn(3); n > 0; n-- {
+			l.add(genRecord(g, l.h, 0))
+		}
+		l.marker()
+		if g.Rng.Intn(3) == 0 {
+			l.add(genRecord(g, l.h, 0))
+		}
+		l.ops = append(l.ops, "sync")
+		if f < files-1 {
+			l.ops = append(l.ops, "rotate")
+		}
+	}
+	if g.Rng.Intn(4) != 0 {
+		l.ops = append(l.ops, "crash") // restart: the group is rebuilt from the directory listing
+	}
+	for _, h := range l.heights {
+		l.ops = append(l.ops, fmt.Sprintf("search h=%d ign=%d", h, g.Rng.Intn(2)))
+	}
+	l.ops = append(l.ops, fmt.Sprintf("search h=%d ign=1", l.h))
+	for i := 0; i < 3; i++ {
+		l.ops = append(l.ops, fmt.Sprintf("read idx=%d skip=%d", pre-2+g.Rng.Intn(files+2), g.Rng.Intn(2)))
+	}
+	g.Case(fmt.Sprintf("longlived rotations=%d files-after=%d", pre, files), l.ops, true)
 }
